@@ -8,7 +8,7 @@ use wow_mpq::{SecurityLimits, SessionTracker, compress, decompress};
 const LOSSLESS: &[(u8, &str)] = &[(0x02, "zlib"), (0x10, "bzip2"), (0x12, "lzma"), (0x20, "sparse"), (0x08, "pkware"), (0x22, "sparse+zlib"), (0x30, "sparse+bzip2")];
 const LOSSY: &[(u8, &str)] = &[(0x40, "adpcm-mono"), (0x80, "adpcm-stereo"), (0x42, "adpcm-mono+zlib"), (0x41, "adpcm-mono+huffman"), (0x81, "adpcm-stereo+huffman"), (0x82, "adpcm-stereo+zlib")];
 const COMPRESS_ONLY_ERR: &[(u8, &str)] = &[(0x01, "huffman"), (0x04, "implode")];
-const CLASSES: &[&str] = &["zero", "ff", "period2", "period3", "period255", "runs", "random", "text", "half", "sparse"];
+const CLASSES: &[&str] = &["zero", "ff", "period2", "period3", "period255", "runs", "litruns", "random", "text", "half", "sparse"];
 
 fn lengths(thorough: bool) -> Vec<usize> {
     let mut v: Vec<usize> = (0..=40).collect();
@@ -66,13 +66,16 @@ fn check_lossless(c: &mut Case, m: u8, mname: &str, class: &str, d: &[u8]) {
     }
     let rc = ratio_class(len, out.len() - 1);
     // decompress with the true length under default limits, both entry points
-    for api in ["decompress", "decompress_secure"] {
+    // decompress_secure also takes the file's name: the codec contract may not depend on it for sizes this small
+    // (the nested-archive heuristic only concerns outputs > 50 MB)
+    for api in ["decompress", "decompress_secure", "decompress_secure:name.mpq", "decompress_secure:Dir\\data.ZIP", "decompress_secure:a.rar", "decompress_secure:b.7z", "decompress_secure:c.txt"] {
         let r = trap(|| {
             if api == "decompress" {
                 decompress(&out[1..], m, len)
             } else {
                 let st = SessionTracker::new();
-                decompress_secure(&out[1..], m, len, None, &st, &SecurityLimits::default())
+                let name = api.split_once(':').map(|x| x.1);
+                decompress_secure(&out[1..], m, len, name, &st, &SecurityLimits::default())
             }
         });
         c.count("decompress_calls", 1);
@@ -80,7 +83,7 @@ fn check_lossless(c: &mut Case, m: u8, mname: &str, class: &str, d: &[u8]) {
             Err(p) => c.violate(format!("decompress-panic|{mname}|{}", p.sig()), format!("{api}(compress(len {len}, class {class}), {mname}) panicked: {}", p.msg), json!({"class": class, "len": len})),
             Ok(Err(e)) => {
                 let msg = format!("{e}");
-                let kind = if msg.contains("ratio") || msg.contains("bomb") { "bomb-ratio" } else { "other" };
+                let kind = if msg.contains("ratio") || msg.contains("bomb") { "bomb-ratio" } else if msg.contains("nested") { "nested-archive-name" } else { "other" };
                 c.violate(
                     format!("own-output-rejected|{mname}|{kind}|{rc}"),
                     format!("{api} rejected compress()'s own output: {msg} (len {len}, class {class}, compressed {})", out.len() - 1),
